@@ -167,9 +167,8 @@ def print_experiments(block, experiments):
         given a ``name``, each experiment's output is divided into sections
         labeled by that name (one section per diagonal).
     """
-    # Restore continuous factors for printing trials
-    block.restore_continuous()
-
+    # The block's original design, which is what is printed, already includes
+    # any continuous factors; the block itself is left as it is
     ls_name = None
     ls_dlen = 0
     for ct in block.orig_constraints:
